@@ -177,6 +177,59 @@ for n in eval(sys.argv[1]):
 '''
 
 
+class ConcLoadScn:
+    """two threads inside loads() at the same time, preempted at every statement of the unserializer: each
+    call gives exactly the result it gives alone (the nesting guard of one must not be reset by the other)"""
+
+    @staticmethod
+    def inputs():
+        import struct
+
+        i4 = lambda n: struct.pack("!i", n)  # noqa: E731
+        deep = b"@" + i4(0) + (b"@" + i4(1)) * 300
+        return [b"\x02" + deep + b"O" + i4(1) + b"Q", R.encode([1, {"k": (2, 3)}, {4}])]
+
+    @staticmethod
+    def scenario(w, P):
+        import execnet
+
+        from .common import Session
+
+        S = Session(w, "popen", "thread")
+        data = ConcLoadScn.inputs()
+
+        def main():
+            w.exploring = True
+
+            def user(i):
+                try:
+                    v = execnet.loads(data[i])
+                    w.observe("res", i, "value", srepr(v, 40))
+                except execnet.DataFormatError:
+                    w.observe("res", i, "DataFormatError", "")
+                except BaseException as e:  # noqa: BLE001
+                    w.observe("res", i, type(e).__name__, str(e)[:60])
+
+            for i in range(2):
+                S.user(user, f"loader{i}", (i,))
+            S.join_users()
+            w.exploring = False
+            w.observe("joined")
+
+        S.main(main)
+        return S
+
+    @staticmethod
+    def oracle(w, S, P):
+        obs = w.obs
+        if ("joined",) not in obs:
+            return ("c13:concurrent-load-hang", f"obs={obs}"), 0
+        res = {e[1]: e[2] for e in obs if e[0] == "res"}
+        if res.get(0) != "DataFormatError" or res.get(1) != "value":
+            return ("c13:concurrent-load", f"two concurrent loads(): the over-deep set member gave {res.get(0)} (alone: DataFormatError), the small value gave {res.get(1)} (alone: value): {obs}"), 0
+        return None, 1
+
+
 def _limit_memory():
     try:
         resource.setrlimit(resource.RLIMIT_AS, (3 * 2**30, 3 * 2**30))
@@ -336,6 +389,11 @@ def run(tier: str, only=None) -> int:
         missing = sorted(want_cells - seen_cells)[:3]
         rep.violation("c13:deep-nesting-crash", f"the interpreter did not survive loads() of deeply nested input: exit status {r.returncode}, first shapes without a result: {missing}; stderr tail: {r.stderr[-200:]}", {"check": PID, "sub": "deep", "returncode": r.returncode})
     rep.add_enumeration("nesting-depth-classes", len(want_cells), len(want_cells), {"depths": depths, "shapes": list(DEEP_SHAPES)})
+    # two loads at once, preempted inside the unserializer
+    from engine import harness
+
+    umask = harness.stmt_mask(lambda m, q, l: m == "gateway_base" and (q.startswith("Unserializer.") or q in ("loads", "load")))
+    harness.run_exploration(rep, PID, "concload", ConcLoadScn, {}, {"ps": 0, "pl": 1, "free": 0} if tier == "quick" else {"ps": 0, "pl": 2, "free": 0}, stmt=umask, max_execs=2000000, horizon=200000)
     # no strict prefix of a valid dump may load successfully
     import execnet
 
@@ -368,6 +426,13 @@ def replay(path: str) -> int:
     import json
 
     d = json.load(open(path))
+    if "choices" in d:
+        from engine import harness
+
+        return harness.replay_file(path, {"concload": ConcLoadScn}, stmt_for=lambda d: harness.stmt_mask(lambda m, q, l: m == "gateway_base" and (q.startswith("Unserializer.") or q in ("loads", "load"))))
+    if "input_hex" not in d:
+        print(d)
+        return 1
     data = bytes.fromhex(d["input_hex"])
     install_audit()
     print("input:", data)
